@@ -64,7 +64,9 @@ for sid in sorted(os.listdir(root)):
               "C02-G": "C02-R6 (left-over window rewound only on the chunk reader's success edge)", "C05-G": "C05-R9 (header slot = fixed + padding + sibling length of the address written)",
               "C08-G": "C08-R10 (reload short-cut content refreshed by save and load)", "C17-G": "C17-R1 (an earlier expiry is always taken)",
               "C18-G": "C18-R5 (legacy flags only tested or folded into the derived flags)", "C19-G": "C19-R4 (round publishes the best index or leaves on cur == best)",
-              "C05-H": "C05-R7 (through the helpers a session is built with)", "C12-H": "C12-R8 (lock balance)", "C14-H": "C14-R5 (recorded on every exit)"}
+              "C05-H": "C05-R7 (through the helpers a session is built with)", "C12-H": "C12-R8 (lock balance)", "C14-H": "C14-R5 (recorded on every exit)",
+              "C06-I": "C06-R1 (wrapper built only on the ok edge of the assertion it relies on — now decided instead of reviewed)", "C08-I": "C08-R2 (both live stores follow)",
+              "C12-I": "C12-R9 (registered means served)", "C17-I": "C17-R2 (TCP split offset is the start of the second length field)"}
     if sid in missed:
         meta["missed_when_first_run"] = True
         meta["check_strengthened_with"] = missed[sid]
